@@ -691,7 +691,7 @@ def cases_b06(tier, seed):
         if kind == "reflect" or (kind == "mixed" and rng.random() < 0.5):
             x["reflect"] = True
         if kind in ("scale", "mixed"):
-            x["scale"] = float(10 ** rng.uniform(-3, 3))
+            x["scale"] = float(10 ** rng.uniform(-5, 3))
         far = "-far" if ("shift_rel" in x and math.hypot(*x["shift_rel"]) > 300) else ""
         out.append(dict(check="B06", tissue=ts, xf=x, kind=kind + far, fit=_fit_for(rng, ts),
                         linear_part=bool("angle" in x or "align" in x or x.get("reflect"))))
